@@ -3,6 +3,10 @@
 import json
 import os
 import subprocess
+import sys
+
+sys.path.insert(0, os.path.dirname(os.path.abspath(__file__)))
+import sanitizers  # noqa: E402
 
 ROOT = os.path.dirname(os.path.dirname(os.path.abspath(__file__)))
 
@@ -37,8 +41,9 @@ CHECKS.update({
     "C16": (
         "exploration",
         "runtime monitor: declared schema vs Storable::get_all of every draw over all option sets",
-        "For 6 presets x 32 store_* option sets x dimensions {0,1,3,17} x 2 targets (55 draws, warmup with transformation updates "
-        "and forced divergences) every draw's statistics are compared with Settings::stat_names/types/dims/event_dims: names and "
+        "For 6 presets x 32 store_* option sets x dimensions {0,1,3,17} x 3 targets (scaled Gaussian, funnel with a tight energy limit, Gaussian with "
+        "injected NaN / +-inf log densities, NaN / inf gradients and recoverable errors; 55 draws, warmup with transformation updates "
+        "and divergences with and without a finite energy error) every draw's statistics are compared with Settings::stat_names/types/dims/event_dims: names and "
         "order, declared type, length = product of declared dims, non-event statistics on every draw or none (and following their "
         "option), event statistics only on event draws with their identifying fields, divergence fields <=> Progress.diverging, "
         "transformation-update events <=> the next trajectory runs under a different transformation id, counters +1, chain constant.",
@@ -66,8 +71,10 @@ CHECKS.update({
         "leapfrog in the original space (M^-1 = F F^T), with its own inverse (forward then backward), with a finite-difference "
         "Jacobian determinant, with the second-order energy error law over 8/16/32 steps, and with exact energy conservation "
         "of the ExactNormal integrator on the Gaussian whitened by the transformation; transformation inverse, gradient "
-        "pull-back (also vs finite differences) and log-determinant are compared with a dense LU.",
-        "Trusted: the harness' dense reference; tolerances 1e-9 relative (1e-8 for the inverse). ESH reversibility only for "
+        "pull-back (also vs finite differences) and log-determinant are compared with a dense LU. The transformations that the "
+        "sampler's own adaptation builds in real chains (ordinary scales and scales beyond the 1e-10..1e10 clamp) are checked as "
+        "bijections on every reported point (x = std*y + mean, grad_y = std*grad_x, std*inv_std = 1, log-determinant).",
+        "Trusted: the harness' dense reference; tolerances 1e-9 relative (inverse: 1e-8 plus 500 eps times the measured amplification of the backward step). ESH reversibility only for "
         "moderate contraction (inconclusive otherwise).",
         "DESIGN.md §3 C02",
     ),
@@ -115,7 +122,8 @@ CHECKS.update({
         "steps); returned position finite, logp finite, equal to an un-faulted evaluated state; MCLMC divergent draws do not move; "
         "step size positive finite; recoverable faults never make a later call fail; the chain is not stuck divergent afterwards.",
         "An invalid *initial point* may be refused by set_position. The site of a fault (trajectory vs step-size search) is taken from "
-        "the fault-free run, which is valid because the runs are deterministic up to the first fault.",
+        "the fault-free run for the first faulted call (runs are deterministic up to the first fault) and from the faulted trace itself for the "
+        "re-evaluation of an already evaluated point (re-run of the step size search).",
         "DESIGN.md §3 C05",
     ),
 })
@@ -129,7 +137,9 @@ CHECKS.update({
         "0 < step <= max_step_size and finite after every update, metamorphic monotonicity (pointwise larger acceptance never gives a smaller "
         "later current or averaged step), Adam moves up exactly when the bias-corrected smoothed acceptance exceeds the target. Initial search: "
         "the real Strategy::init runs with scripted momentum; the bracket (acceptance at the final step on one side of the target, at half / double "
-        "on the other) is re-measured with the real integrator, fall-backs are only accepted if a trial on the search path really fails. Closed "
+        "on the other) is re-measured with the real integrator, fall-backs are only accepted if a trial on the search path really fails. Adam inside "
+        "real chains: every warmup update of the step size is replayed from the reported statistics (asymmetric statistic before, symmetric one inside "
+        "the final window, restart after a successful re-run of the search; direction follows the smoothed acceptance). Closed "
         "loop: adapted chains on Gaussians, post-warmup mean symmetric acceptance within 0.3 + 6 se of the target, confirmation on fresh seeds.",
         "The closed-loop oracle is statistical (tolerance calibrated on the unchanged tree, confirmation stage); it detects gross mis-steering only.",
         "DESIGN.md §3 C07",
@@ -143,8 +153,9 @@ CHECKS.update({
         "The real DiagAdaptStrategy and LowRankMassMatrixStrategy are fed through their collector with synthetic windows and the resulting "
         "transformation is read back: (1) diagonal Gaussians, any placement of 3..42 points: stds = sigma and mean = mu to rounding, inverse "
         "scales and log-determinant consistent; (2) dense Gaussians with more points than dimensions: whitened gradient = -whitened position "
-        "at fresh points; (3) 10 x 10 classes of hostile windows (constant, zero, 1e+-300, NaN, inf, identical rows, wild magnitudes in draws "
-        "and/or gradients) after a sane window: every std / inverse std / sqrt eigenvalue finite and > 0, log-determinant finite, non-finite "
+        "at fresh points; (3) 12 x 12 classes of hostile windows (constant, zero, 1e+-300, NaN, inf, identical rows, wild magnitudes, one column beyond the clamp of "
+        "the scale estimate, in draws and/or gradients) after a sane window: every std / inverse std / sqrt eigenvalue finite and > 0, std * inverse "
+        "std = 1 (also where clamped), log-determinant finite and consistent, non-finite "
         "input keeps the previous value, no panic, no hang (60 s on a helper thread); (4) adapted chains with store_transformed: "
         "|y + grad_y| / |y| small after 150 warmup draws, scales positive finite at every draw, fisher_distance statistic consistent.",
         "Low-rank exactness uses eigval_cutoff = 1, gamma = 1e-12 (default cutoff deliberately drops eigenvalues in [1/2,2]). Tolerances scale with the condition number.",
@@ -223,7 +234,8 @@ CHECKS.update({
         "aborted ends with exactly num_tune+num_draws records per chain, in order, identical to the uninterrupted run, and the finalized trace "
         "equals the records; an aborted run returns per-chain prefixes of the uninterrupted run; at quiescent points progress() agrees with the "
         "trace (finished draws, post-warmup divergences, step totals). A call that does not return within 60 s while the process consumes no "
-        "CPU time is re-run in two fresh processes; only a reproduced stall is a deadlock, any other watchdog expiry is inconclusive.",
+        "CPU time and whose chains are not all paused or finished (judged at the schedule points) is re-run in up to four fresh processes, each repeating "
+        "the case 40 times; only a reproduced stall is a deadlock, any other watchdog expiry is inconclusive.",
         "Termination is bounded (watchdog), not proven. Scripts end with resume or abort.",
         "DESIGN.md §3 C11",
     ),
@@ -298,6 +310,10 @@ def main():
         if pid not in CHECKS:
             continue
         cat, tech, text, note, ref = CHECKS[pid]
+        passes = sanitizers.PLAN.get(pid, [])
+        if passes:
+            tech += "; thorough tier repeats the workload under " + " and ".join(
+                {"asan": "AddressSanitizer", "tsan": "ThreadSanitizer (instrumented std)", "miri": "Miri"}[k] for k, _ in passes)
         checks.append({
             "property_id": pid,
             "quick_cmd": f"./check {pid} --tier quick",
